@@ -8,7 +8,7 @@ let tok_ostr = function None -> "~" | Some s -> tok_of_str s
 let split c s = if s = "-" || s = "" then [] else String.split_on_char c s
 let pair c s = match String.index_opt s c with
   | Some i -> (String.sub s 0 i, String.sub s (i+1) (String.length s - i - 1)) | None -> failwith ("pair:" ^ s)
-let errno_of_int = function 28 -> ENOSPC | 13 -> EACCES | 5 -> EIO | 4 -> EINTR | 30 -> EROFS | 2 -> ENOENT | 20 -> ENOTDIR | _ -> EOTHER
+let errno_of_int = function 28 -> ENOSPC | 13 -> EACCES | 1 -> EPERM | 5 -> EIO | 4 -> EINTR | 30 -> EROFS | 2 -> ENOENT | 20 -> ENOTDIR | _ -> EOTHER
 let fault_of t = if t = "c" then FCrash else if t = "ok" then FOk else
   if t.[0] = 'f' then FFail (errno_of_int (int_of_string (String.sub t 1 (String.length t - 1)))) else failwith "fault"
 let mode_of = function "content" -> MContent | "changes" -> MChanges | "normalize" -> MNormalize | _ -> failwith "mode"
